@@ -16,7 +16,7 @@ EXPLANATION = (
     'comment text present; indented; previous-is-block-comment} the values of the tokens the post-lexer yields for one combined '
     'lexeme concatenate to exactly newline+indent+comment, every synthetic mark is zero-width, other tokens pass unchanged and the '
     'end-of-stream flush is zero-width), GRAM-SPLIT (every lexeme of the combined terminal fully matches the split regex, with the '
-    'right group structure), GRAM-REG (every terminal / rule that can reach the builder has a registered model), BUILDER-CONS (the '
+    'right group structure), GRAM-REG (every terminal / rule that can reach the builder has a registered model), GRAM-FIELDS (the child sequence the compiled grammar delivers for each rule has one slot per constructor field, in order and of the declared type), BUILDER-CONS (the '
     'builder\'s token list is append-only, every lexer token with text is materialised exactly once in order -- gap fill before each '
     'built token and at the end -- and inserted once), PARSE-FEED (every lexer token is recorded before the feed decision), '
     'PRINT-ALL (the printer writes raw_text of every token of the model, unfiltered, in order). It does NOT decide that lark accepts '
@@ -350,6 +350,8 @@ def run(ctx: RuleContext, p: Program) -> None:
     rule_postlex_cons(ctx, p, 'POSTLEX-CONS')
     grammar_rules.rule_gram_split(ctx, p, 'GRAM-SPLIT')
     grammar_rules.rule_gram_reg(ctx, p, 'GRAM-REG')
+    from ..fieldmodel import build_tree_classes
+    grammar_rules.rule_gram_fields(ctx, p, build_tree_classes(p), 'GRAM-FIELDS')
     rule_builder_cons(ctx, p, 'BUILDER-CONS')
     rule_parse_feed(ctx, p, 'PARSE-FEED')
     rule_print_all(ctx, p, 'PRINT-ALL')
